@@ -108,10 +108,11 @@ func aliasBodies() []ref.AnnTy {
 	for _, n := range names {
 		add(ref.Plus(ref.Branch{Label: "l", T: ref.Plus(ref.Branch{Label: "l", T: ref.Name(n)})}))
 	}
-	for i, n := range names {
-		add(ref.Tensor(ref.Name(n), ref.Name(names[(i+1)%3])))
+	for _, n := range names {
+		for _, m := range names {
+			add(ref.Tensor(ref.Name(n), ref.Name(m)))
+		}
 	}
-	add(ref.Tensor(ref.Name("A"), ref.Name("A")))
 	return out
 }
 
@@ -137,7 +138,7 @@ func init() {
 	// ---------------- C10 ----------------
 	harness.Register(&harness.Check{
 		ID: "C10", Level: "exploration",
-		Rule:        "all environments of <= 2 (quick) / <= 3 (thorough) type definitions over names A,B(,C) (plus, in both tiers, all 4096 alias/recursion/mode graphs over three names with bodies 1, lin 1, aff 1, X, +{l:X}, +{l:+{l:X}}, X * Y and all 32 shift forms under every annotation) with bodies = every type of depth <= 1 (depth <= 2 for single definitions) over 1, *, -*, +{l},+{l,r},&{..}, legal and illegal shifts, duplicated labels, each with every head annotation (none, 4 modes, an unknown mode), plus duplicated definitions; each is turned into a program (definitions + one identity function per name) and also used as annotation type of a parameter/result, of an assumed name + process, and of a typed cut; verdict of the real typechecker must equal the independent well-formedness checker R-wf; distinct_nontrivial counts distinct program texts with at least one type constructor",
+		Rule:        "all environments of <= 2 (quick) / <= 3 (thorough) type definitions over names A,B(,C) (plus, in both tiers, all 9261 alias/recursion/mode graphs over three names with bodies 1, lin 1, aff 1, X, +{l:X}, +{l:+{l:X}}, X * Y and all 32 shift forms under every annotation) with bodies = every type of depth <= 1 (depth <= 2 for single definitions) over 1, *, -*, +{l},+{l,r},&{..}, legal and illegal shifts, duplicated labels, each with every head annotation (none, 4 modes, an unknown mode), plus duplicated definitions; each is turned into a program (definitions + one identity function per name) and also used as annotation type of a parameter/result, of an assumed name + process, and of a typed cut; verdict of the real typechecker must equal the independent well-formedness checker R-wf; distinct_nontrivial counts distinct program texts with at least one type constructor",
 		Assumptions: []string{"R-wf (ref/types.go) is the reading of 'well-formed' used: single definition, defined names, distinct labels, no cycle of bare-name definitions, known modes, modes uniform up to shifts, legal shifts, directional mode inference (DESIGN 4.6)"},
 		Cases:       func(c *harness.Ctx) int { return chunks(wfSpace(c).total) + len(annEnvs())*len(annPool(c)) },
 		Run: func(c *harness.Ctx, idx int, r *harness.Rec) {
@@ -326,6 +327,7 @@ func checkC10Annotation(e0 *ref.Env, a0 ref.AnnTy, r *harness.Rec) {
 		e.String() + fmt.Sprintf("let h(x : %s) : %s = y : %s <- new fwd self x; fwd self y\n", ts, ts, ts),
 		e.String() + fmt.Sprintf("let k(x : %s, y : 1) : 1 = drop x; wait y; close self\n", ts),
 		e.String() + fmt.Sprintf("assuming z : %s, w : 1\nprc[p] : 1 = drop z; wait w; close self\n", ts),
+		e.String() + fmt.Sprintf("let h2(x : %s) : %s = y : %s <- new fwd self x; fwd self y\n", a.T.String(), a.T.String(), ts),
 	} {
 		res := TypecheckText(text, nil, nil)
 		r.Add("evaluations", 1)
@@ -338,7 +340,15 @@ func checkC10Annotation(e0 *ref.Env, a0 ref.AnnTy, r *harness.Rec) {
 			viol(r, "crash: "+NormMsg(strings.Join(res.Panics, ";")), "typechecker crashed or gave no answer: "+strings.Join(res.Panics, "; "), text, nil)
 			continue
 		}
-		pos := []string{"signature", "assumed name/process", "typed cut", "first parameter", "first assumed name"}[vi]
+		pos := []string{"signature", "assumed name/process", "typed cut", "first parameter", "first assumed name", "cut annotation only"}[vi]
+		if vi == 5 {
+			// the signature uses the type without its head annotation; only the case "signature fine, cut
+			// annotation ill-formed" is decided here
+			plain := ref.AnnTy{T: a.T.Copy()}
+			if werr == "" || e.CheckType(plain, dm) != "" {
+				continue
+			}
+		}
 		if vi >= 3 && werr == "" {
 			// positions 3 and 4 drop x: only meaningful for the ill-formed direction (a well-formed linear type may not be dropped)
 			continue
@@ -611,6 +621,20 @@ func checkC16Env(e *ref.Env, r *harness.Rec) {
 	res := TypecheckText(text, nil, func(t *TCResult) { keys, modes, bad = realDefModes(t) })
 	r.Add("evaluations", 1)
 	if !res.Accepted() {
+		// reverse direction of annotation stability: a well-formed environment that is rejected must not
+		// become accepted by merely writing the (reference-)inferred head annotations explicitly
+		if res.ParseErr == "" && len(res.Panics) == 0 && !res.Blocked && e.WellFormed() == "" {
+			ae := &ref.Env{}
+			for _, d := range e.Defs {
+				ae.Defs = append(ae.Defs, ref.TypeDef{Name: d.Name, Body: ref.AnnTy{Ann: d.Mode, T: d.Body.T.Copy()}})
+			}
+			atext := envProgram(ae)
+			ares := TypecheckText(atext, nil, nil)
+			r.Add("evaluations", 1)
+			if ares.Accepted() {
+				viol(r, "explicit annotation changes the verdict", "rejected ("+res.TypeErr+"), but accepted once the inferred head annotations are written explicitly", atext, map[string]interface{}{"original": text})
+			}
+		}
 		return
 	}
 	r.Add("accepted_envs", 1)
